@@ -146,16 +146,31 @@ func (c *Core) setupAuditedHeadersConfig(ctx context.Context) error {
 	view := c.systemBarrierView.SubView(auditedHeadersSubPath)
 
 	// Create the config
+	headers, err := loadAuditedHeaders(ctx, view)
+	if err != nil {
+		return err
+	}
+
+	c.auditedHeaders = &AuditedHeadersConfig{
+		Headers: headers,
+		view:    view,
+	}
+
+	return nil
+}
+
+// loadAuditedHeaders reads the persisted headers config from the barrier view
+func loadAuditedHeaders(ctx context.Context, view barrier.View) (map[string]*auditedHeaderSettings, error) {
 	out, err := view.Get(ctx, auditedHeadersEntry)
 	if err != nil {
-		return fmt.Errorf("failed to read config: %w", err)
+		return nil, fmt.Errorf("failed to read config: %w", err)
 	}
 
 	headers := make(map[string]*auditedHeaderSettings)
 	if out != nil {
 		err = out.DecodeJSON(&headers)
 		if err != nil {
-			return err
+			return nil, err
 		}
 	}
 
@@ -166,10 +181,22 @@ func (c *Core) setupAuditedHeadersConfig(ctx context.Context) error {
 		lowerHeaders[strings.ToLower(k)] = v
 	}
 
-	c.auditedHeaders = &AuditedHeadersConfig{
-		Headers: lowerHeaders,
-		view:    view,
+	return lowerHeaders, nil
+}
+
+// invalidate reloads the headers config from the barrier view. It is used on
+// standby nodes, which audit the requests they serve themselves, when the
+// active node has changed the config.
+func (a *AuditedHeadersConfig) invalidate(ctx context.Context) error {
+	headers, err := loadAuditedHeaders(ctx, a.view)
+	if err != nil {
+		return err
 	}
+
+	a.Lock()
+	defer a.Unlock()
+
+	a.Headers = headers
 
 	return nil
 }
